@@ -12,6 +12,7 @@ import (
 	"sort"
 	"sync"
 	"testing"
+	"time"
 
 	"pgregory.net/rapid"
 
@@ -126,19 +127,53 @@ func checkCutFile(d *kit.Doc, ref, got *zoekt.FileMatch, chunk bool, k int, mayC
 	if !bytes.Equal(want, gc.Content) {
 		known := ""
 		// limitChunkMatches miscounts the lines to drop from the end of Content
-		// (see known_findings.json). Recognised only while the damage is
-		// confined to that: the shortened content is still a piece of the file
-		// starting at ContentStart that contains every remaining range, and
-		// differs from the whole lines it should be only at its end.
-		cs := int(gc.ContentStart.ByteOffset)
-		lastEnd := int(gc.Ranges[len(gc.Ranges)-1].End.ByteOffset)
-		if cs+len(gc.Content) <= len(data) && bytes.Equal(data[cs:cs+len(gc.Content)], gc.Content) && cs+len(gc.Content) >= lastEnd &&
-			(bytes.HasPrefix(want, gc.Content) || bytes.HasPrefix(gc.Content, want)) {
+		// (see known_findings.json). The known defect is pinned exactly: the
+		// shortened content must be what that arithmetic produces from the
+		// uncut chunk by some chain of cuts (a partial aggregate may be cut
+		// more than once); anything else is a new violation.
+		if pinnedCutReachable(&rc, m, gc.Content) {
 			known = "C22-cut-chunk-trailing-lines"
 		}
 		return true, kit.FailKnown(known, "cut-chunk-content", "file %s: chunk cut to %d of %d ranges (lines %d-%d, %d context lines) has content %q, whole lines would be %q", got.FileName, m, len(rc.Ranges), lo, hi, k, gc.Content, want)
 	}
 	return true, nil
+}
+
+// pinnedCut reproduces the arithmetic of index.limitChunkMatches as it is on
+// the pinned tree: drop n = lastEndLine(old) - lastEndLine(new) lines from the
+// end of content by counting newlines backwards (the terminating newline of
+// the content counts as a line; if fewer newlines exist the content is kept).
+func pinnedCut(content []byte, oldEndLine, newEndLine uint32) []byte {
+	n := int(oldEndLine) - int(newEndLine)
+	if n <= 0 {
+		return content
+	}
+	for b := len(content) - 1; b >= 0; b-- {
+		if content[b] == '\n' {
+			n--
+		}
+		if n == 0 {
+			return content[:b]
+		}
+	}
+	return content
+}
+
+// pinnedCutReachable reports whether got is reachable from the uncut chunk by
+// a chain of cuts M -> ... -> m of that arithmetic.
+func pinnedCutReachable(uncut *zoekt.ChunkMatch, m int, got []byte) bool {
+	M := len(uncut.Ranges)
+	reach := make([]map[string]bool, M+1)
+	reach[M] = map[string]bool{string(uncut.Content): true}
+	for k := M - 1; k >= m; k-- {
+		reach[k] = map[string]bool{}
+		for j := k + 1; j <= M; j++ {
+			for c := range reach[j] {
+				reach[k][string(pinnedCut([]byte(c), uncut.Ranges[j-1].End.LineNumber, uncut.Ranges[k-1].End.LineNumber))] = true
+			}
+		}
+	}
+	return reach[m][string(got)]
 }
 
 // checkPrefix: got is the beginning of the unlimited ranked result ref.
@@ -377,6 +412,23 @@ func runC22(rec *kit.Recorder, c c22Case) error {
 			return kit.Fail("search-error", "%s (stream): %v", what, err)
 		}
 		if err := checkStream(docs, sref.Files, streamed, &c, what+" (StreamSearch)"); err != nil {
+			return err
+		}
+		// streaming with a flush window longer than the search: everything is
+		// collected, ranked and truncated before the single flush, so the
+		// concatenated events must obey the same contract as Search
+		var flushed []zoekt.FileMatch
+		o = lim
+		o.FlushWallTime = time.Hour
+		err = e.dir.StreamSearch(context.Background(), q, &o, zoekt.SenderFunc(func(r *zoekt.SearchResult) {
+			mu.Lock()
+			defer mu.Unlock()
+			flushed = append(flushed, r.Files...)
+		}))
+		if err != nil {
+			return kit.Fail("search-error", "%s (stream, flush window): %v", what, err)
+		}
+		if _, err := checkPrefix(docs, sref.Files, flushed, &c, what+" (StreamSearch, FlushWallTime 1h)", oneShot); err != nil {
 			return err
 		}
 		rec.Eval(ckey+fmt.Sprintf("|%+v|%d|%d|%v|%d|%v", qs, c.MaxDocs, c.MaxMatches, c.Chunk, c.Context, c.Order), nt,
